@@ -125,7 +125,7 @@ class Ctx:
         cmd = ["go", "build", "-tags", "verif"] + (["-race"] if race else [])
         if os.environ.get("VERIF_COVER"):
             # development aid (bin/coverage): which library statements do the drivers of this check reach
-            cmd += ["-cover", "-coverpkg=github.com/cloudflare/pat-go/..."]
+            cmd += ["-cover", "-coverpkg=all"]   # a pattern naming the replaced module matches nothing; filter afterwards
         cmd += ["-o", out, "."]
         r = subprocess.run(cmd, cwd=src, env=self.env(), capture_output=True, text=True)
         if r.returncode != 0:
@@ -177,7 +177,7 @@ class Ctx:
         out = r.stdout + r.stderr
         return {"cmd": " ".join(cmd), "out": out, "rc": r.returncode, "wall": time.time() - t, "dir": d}
 
-    def prove(self, module, timeout=900, threads=8):
+    def prove(self, module, timeout=900, threads=12):
         """P: check the TLAPS proofs of a module with tlapm (from scratch, no fingerprint cache). The proofs are about
         the specification only (unbounded versions of what TLC checks with small constants). They are supplementary:
         back-end provers run under time limits, so a failed attempt is retried with longer limits, and a proof that
